@@ -15,9 +15,97 @@ from .report import Report
 from . import mutants as M
 
 
+HERE = os.path.dirname(os.path.dirname(os.path.abspath(__file__)))
+
+
+def apply_unified(files, diff):
+    """Apply a unified diff to {path: text} in memory (exact context match at
+    or near the stated line); returns the new map or None if a hunk does not
+    apply.  Paths missing from `files` make the patch inapplicable."""
+    out = dict(files)
+    path = None
+    hunks = []
+    cur = None
+    for line in diff.splitlines():
+        if line.startswith('+++ '):
+            path = line[4:].strip()
+            path = path[2:] if path.startswith(('a/', 'b/')) else path
+            hunks.append((path, []))
+        elif line.startswith('--- ') or line.startswith('diff ') or \
+                line.startswith('index '):
+            cur = None
+        elif line.startswith('@@') and hunks:
+            try:
+                start = int(line.split('-')[1].split(',')[0].split()[0])
+            except (IndexError, ValueError):
+                return None
+            cur = {'start': start, 'old': [], 'new': []}
+            hunks[-1][1].append(cur)
+        elif cur is not None:
+            if line.startswith('\\'):
+                continue
+            tag, body = (line[:1], line[1:]) if line else (' ', '')
+            if tag in (' ', '-'):
+                cur['old'].append(body)
+            if tag in (' ', '+'):
+                cur['new'].append(body)
+    for path, hs in hunks:
+        if path not in out:
+            return None
+        lines = out[path].split('\n')
+        shift = 0
+        for h in hs:
+            at = h['start'] - 1 + shift
+            n = len(h['old'])
+            found = None
+            for delta in sorted(range(-60, 61), key=abs):
+                i = at + delta
+                if 0 <= i <= len(lines) - n and lines[i:i + n] == h['old']:
+                    found = i
+                    break
+            if found is None:
+                return None
+            lines[found:found + n] = h['new']
+            shift += len(h['new']) - n + (found - at)
+        out[path] = '\n'.join(lines)
+    return out
+
+
+def corpus(kind):
+    """[(name, diff text, meta)] of the committed corpora: 'seeded'
+    (confirmed breaking changes) or 'benign' (behaviour-preserving
+    refactors)."""
+    import glob
+    import json
+    out = []
+    if kind == 'seeded':
+        for d in sorted(glob.glob(os.path.join(HERE, 'seeded', '*', ''))):
+            try:
+                meta = json.load(open(os.path.join(d, 'meta.json')))
+                diff = open(os.path.join(d, 'patch.diff')).read()
+            except OSError:
+                continue
+            out.append((meta['name'], diff, meta))
+    else:
+        for f in sorted(glob.glob(os.path.join(HERE, 'benign', '*.diff'))):
+            out.append((os.path.basename(f)[:-5], open(f).read(), {}))
+    return out
+
+
 def apply_edit(sources, edit):
     """edit: dict(path, old, new[, count]) textual, old must occur exactly
     `count` (default 1) times; returns new sources or None if inapplicable."""
+    if 'diff' in edit:
+        new = apply_unified(sources, edit['diff'])
+        if new is None:
+            return None
+        for p_, t_ in new.items():
+            if p_.endswith('.py') and t_ is not sources.get(p_):
+                try:
+                    compile(t_, p_, 'exec', dont_inherit=True)
+                except SyntaxError:
+                    return None
+        return new
     if edit.get('transform') == 'ast-roundtrip':
         # whole-tree reformat: comments dropped, layout normalised
         return {p: ast.unparse(ast.parse(t)) for p, t in sources.items()}
@@ -42,7 +130,19 @@ def apply_edit(sources, edit):
 def run_one(args):
     sources, templates, pid, edit = args
     import importlib
-    msrc = apply_edit(sources, edit)
+    if 'diff' in edit:
+        # a patch may touch a comment template as well as the sources
+        tpl = {'bert_e/templates/' + k: v for k, v in templates.items()}
+        merged = dict(sources)
+        merged.update(tpl)
+        allm = apply_edit(merged, edit)
+        if allm is None:
+            return (edit['name'], 'inapplicable', [])
+        msrc = {k: v for k, v in allm.items() if k in sources}
+        templates = {k[len('bert_e/templates/'):]: v
+                     for k, v in allm.items() if k in tpl}
+    else:
+        msrc = apply_edit(sources, edit)
     if msrc is None:
         return (edit['name'], 'inapplicable', [])
     try:
@@ -63,11 +163,22 @@ def run_one(args):
         return (edit['name'], 'crash', [traceback.format_exc()[-600:]])
 
 
-def run_suite(pid, sources, templates, jobs=16):
+def run_suite(pid, sources, templates, jobs=16, corpora=False):
     todo = [m for m in M.MUTANTS if m['pid'] == pid]
     eq = [m for m in M.EQUIVALENTS if pid in m.get('pids', [pid])]
     eq.append({'name': 'ast-roundtrip-of-every-module',
                'transform': 'ast-roundtrip', 'pids': [pid]})
+    if corpora:
+        # the committed corpora written by independent sub-agents: seeded
+        # breaking changes this property's check is on record as catching,
+        # and every behaviour-preserving refactor
+        for name, diff, meta in corpus('seeded'):
+            if pid in meta.get('detected_now_by', []):
+                todo.append({'name': 'seeded/' + name, 'pid': pid,
+                             'diff': diff})
+        for name, diff, _ in corpus('benign'):
+            eq.append({'name': 'benign/' + name, 'diff': diff,
+                       'pids': [pid]})
     work = [(sources, templates, pid, e) for e in todo + eq]
     if not work:
         return [], []
@@ -152,7 +263,7 @@ def run_for(pid, prog, rep):
         if bad:
             raise AnalysisError('regex engine disagrees with re.match on '
                                 '%r for %r' % (bad[0][1], bad[0][0]))
-    mres, eres = run_suite(pid, prog.sources, prog.templates)
+    mres, eres = run_suite(pid, prog.sources, prog.templates, corpora=True)
     killed = [m['name'] for m, r in mres if r[1] == 'violation']
     missed = [m['name'] for m, r in mres
               if r[1] in ('silent', 'analysis-error', 'crash')]
@@ -165,7 +276,10 @@ def run_for(pid, prog, rep):
         'equivalents_flagged': noisy,
         'rule': 'each mutant is a one-site edit of the current sources that '
                 'still compiles; killed = the property check reports a '
-                'violation on it; equivalents must stay silent'}
+                'violation on it; equivalents must stay silent.  Includes '
+                'the committed corpora seeded/ (as mutants) and benign/ (as '
+                'equivalents), applied in memory; a patch that no longer '
+                'applies to the current tree is counted inapplicable'}
     rep.evaluated(len(mres) + len(eres))
     for name in missed:
         rep.note('SELFTEST-MISS mutant %s not detected' % name)
@@ -175,13 +289,15 @@ def run_for(pid, prog, rep):
 
 def main(argv):
     root = os.environ.get('VERIF_REPO', '/repo')
+    corpora = '--corpora' in argv
+    argv = [a for a in argv if a != '--corpora']
     pids = [a.upper() for a in argv] or sorted({m['pid'] for m in M.MUTANTS})
     sources = load_sources(root)
     templates = list_templates(root)
     bad = 0
     t0 = time.time()
     for pid in pids:
-        mres, eres = run_suite(pid, sources, templates)
+        mres, eres = run_suite(pid, sources, templates, corpora=corpora)
         for m, r in mres:
             status = r[1]
             flag = 'ok  ' if status == 'violation' else 'MISS'
